@@ -12,7 +12,9 @@ What is *not* true in general:
 * in an `IdentifierList` only the whitespace token *directly* before a comma is removed, so `foo  ,` keeps one blank
   (`foo ,`); a second pass removes it;
 * the parenthesis rule (`tokens[1]` and `tokens[-2]` are not whitespace) holds for the list `_stripws_parenthesis` returns
-  (`stripwsParenthesis_inner`), but an enclosing parenthesis may afterwards trim that list's trailing whitespace.
+  whenever that list has at least three children (`stripwsParenthesis_after_open`, `stripwsParenthesis_before_close`; the loops
+  are guarded by `len(tokens) > 2` since repo commit 4e9e704, so `( )` keeps its blank), but an enclosing parenthesis may
+  afterwards trim that list's trailing whitespace, and the rule speaks about children, not leaves (KF-C10-5).
 -/
 namespace Sql
 open FNode (leaves leavesL)
